@@ -95,7 +95,11 @@ inline void run_shape(const gr_face *face, const ShapeParams &sp, ShapeResult &r
         r.seg = true;
         seginv::Expect ex; ex.enc = sp.enc; ex.text = buf.p; ex.units = units; ex.nchars = nchars; ex.check_gid = sp.check_gid;
         std::vector<const gr_slot *> sl = seginv::check_segment(face, seg, ex, r.findings, &r.st);
-        if (sp.query_all) seginv::query_all(face, font, seg, sl, sp.all_sub);
+        // a segment whose positions are already known to be non-finite (a C03 finding) is not queried further: gr_slot_attr(gr_slatPosX)
+        // converts the position to int, which is undefined for NaN/inf and would abort the process before the finding is reported
+        bool nonfinite = false;
+        for (auto &f : r.findings) if (f.label.find("not-finite") != std::string::npos) nonfinite = true;
+        if (sp.query_all && !nonfinite) seginv::query_all(face, font, seg, sl, sp.all_sub);
         if (sp.want_dump) r.dump = seginv::dump(face, font, seg, sl);
         if (keep) *keep = seg; else gr_seg_destroy(seg);
     }
